@@ -10,6 +10,7 @@ import (
 
 	"verifharness/evid"
 	"verifharness/fakepg"
+	"verifharness/sim"
 )
 
 // rangeViolation checks rows and positions written by commits against [lo, hi].
@@ -51,7 +52,7 @@ func c06Property(rt *rapid.T, ev *evid.Rec, deps bool) {
 	fail := func(f string, a ...any) {
 		rt.Fatalf("VERIF-VIOLATION property=C06 %s\n history:\n   %s", fmt.Sprintf(f, a...), m.History())
 	}
-	straddle, aboveHead, resumed := false, false, false
+	straddle, aboveHead, resumed, midGrowth := false, false, false, false
 	doneSeen := map[string]bool{}
 	restartedSince := map[string]bool{}
 	check := func(p *Pair, r StepResult) {
@@ -127,6 +128,35 @@ func c06Property(rt *rapid.T, ev *evid.Rec, deps bool) {
 			for _, p := range w.Pairs {
 				restartedSince[p.Key()] = true
 			}
+		case 4:
+			// blocks arrive while the step is under way (between two of its requests)
+			p := m.pickPair("steppair")
+			if p.Start == 0 {
+				check(p, m.step(p))
+				continue
+			}
+			k, seen := rapid.IntRange(1, 4).Draw(rt, "growatrequest"), 0
+			var txs [][]sim.Tx
+			for j := rapid.IntRange(1, 2).Draw(rt, "midgrown"); j > 0; j-- {
+				txs = append(txs, genTxs(rt, m))
+			}
+			src := p.Src
+			w.SetHook(func(s *SourceCfg, n *sim.Node, ri sim.ReqInfo) *sim.Fault {
+				if s != src {
+					return nil
+				}
+				if seen++; seen == k {
+					for _, t := range txs {
+						n.Chain.Append(t) // (the node is locked while it answers)
+					}
+					m.logf("  +%d blocks on %s while answering request %d (%s) -> head %d", len(txs), s.Name, k, ri.Kind, n.Chain.Head().Num)
+					midGrowth = true
+				}
+				return nil
+			})
+			r := m.step(p)
+			w.SetHook(nil)
+			check(p, r)
 		default:
 			p := m.pickPair("steppair")
 			check(p, m.step(p))
@@ -192,7 +222,7 @@ func c06Property(rt *rapid.T, ev *evid.Rec, deps bool) {
 		}
 	}
 	nontrivial := straddle || aboveHead || resumed
-	labels := []string{fmt.Sprintf("straddle=%v", straddle), fmt.Sprintf("aboveHead=%v", aboveHead), fmt.Sprintf("resumed=%v", resumed)}
+	labels := []string{fmt.Sprintf("straddle=%v", straddle), fmt.Sprintf("aboveHead=%v", aboveHead), fmt.Sprintf("resumed=%v", resumed), fmt.Sprintf("grewMidStep=%v", midGrowth)}
 	for l := range m.labels {
 		labels = append(labels, l)
 	}
